@@ -4,6 +4,7 @@ package main
 
 import (
 	"encoding/base64"
+	"encoding/json"
 	"fmt"
 	"net"
 	"net/http"
@@ -67,6 +68,7 @@ func driveC01(t *testing.T, out *vEmitter) {
 	vC01HtpasswdReload(t, out)
 	vC01BearerSequence(t, out)
 	vC01StaleCredential(t, out)
+	vC01RefreshedIdentity(t, out)
 	vKeys()
 	htp := vWriteFile("c01-htpasswd", "htuser:{SHA}"+vB64Std(vSHA1([]byte("htpass")))+"\n")
 	variants := []vC01Variant{
@@ -680,6 +682,62 @@ func vC01StaleCredential(t *testing.T, out *vEmitter) {
 			if served == 0 {
 				out.Violation("control/valid-stale-session-never-served", "the stale session with a verifying ID token was never served: the sweep checks nothing", map[string]interface{}{"redis": redis, "nonce_checking": !skipNonce})
 			}
+		}
+	}
+}
+
+// vC01RefreshedIdentity: after a refresh the credential is what the NEW tokens say.  A member of an allowed group whose
+// refreshed ID token no longer carries an allowed group (another group, an empty list, no groups claim) is refused on
+// every disclosing endpoint; one whose new token still carries it is served.
+func vC01RefreshedIdentity(t *testing.T, out *vEmitter) {
+	vKeys()
+	for _, redis := range []bool{false, true} {
+		e := vNewEnv(t, vEnvCfg{oidc: true, redis: redis, mod: func(o *options.Options) {
+			o.Cookie.Refresh = time.Hour
+			o.Providers[0].OIDCConfig.InsecureSkipNonce = true
+			o.Providers[0].AllowedGroups = []string{"admins"}
+		}})
+		type nt struct {
+			label  string
+			groups interface{} // nil: no groups claim
+			ok     bool
+		}
+		served := 0
+		for _, n := range []nt{{"still-admin", []interface{}{"admins", "x"}, true}, {"other-group", []interface{}{"users"}, false},
+			{"empty-list", []interface{}{}, false}, {"no-groups-claim", nil, false}, {"groups-null", "null", false}} {
+			for _, target := range []string{"/page", "/oauth2/auth", "/oauth2/userinfo"} {
+				n := n
+				b := e.newBrowser("https://app.example.com")
+				s := b.seedSession("user@example.com", 2*time.Hour, 20)
+				s.Groups = []string{"admins"}
+				vReseed(b, s)
+				e.idp.onToken = func(url.Values) (int, string, string, error) {
+					extra := map[string]interface{}{}
+					switch g := n.groups.(type) {
+					case nil:
+						extra["groups"] = nil
+					case string:
+						extra["groups"] = json.RawMessage("null")
+					default:
+						extra["groups"] = g
+					}
+					return 200, "application/json", vTokenJSON(vJWT(vKeyRSA, "RS256", vClaims("user@example.com", extra)), "at-new", "rt-new", 3600), nil
+				}
+				r := b.get(target)
+				disclosed := r.Hit() || r.Status == 202 || (r.Status == 200 && strings.Contains(r.Body, "\"email\""))
+				out.Obs("refreshed-identity", true, vL(vBool(redis), vS(n.label), vS(target), vI(int64(r.Status)), vBool(disclosed)))
+				out.Stat("refreshed_identity_requests", 1)
+				if disclosed && n.ok {
+					served++
+				}
+				if disclosed != n.ok {
+					out.Violation("access/disclosure-without-credential", "after a refresh a request was served (refused) although the refreshed ID token does not (does) carry an allowed group",
+						map[string]interface{}{"credential": "refreshed session, new id_token groups: " + n.label, "allowed_groups": []string{"admins"}, "redis": redis, "target": target, "status": r.Status, "disclosed": disclosed})
+				}
+			}
+		}
+		if served == 0 {
+			out.Violation("control/refreshed-member-never-served", "the member whose refreshed token still carries the allowed group was never served: the sweep checks nothing", map[string]interface{}{"redis": redis})
 		}
 	}
 }
